@@ -55,14 +55,18 @@ def instantiate_type(
     # make a deep copy so that there is no overwriting of original template params
     ctype = deepcopy(ctype)
 
-    # Check if the return type has template parameters as the typename's name
-    if ctype.typename.instantiations:
-        for idx, instantiation in enumerate(ctype.typename.instantiations):
+    # Check if the return type has template parameters as the typename's name,
+    # at any depth of its template arguments, e.g. vector<vector<T>>
+    def instantiate_template_args(typename: parser.Typename):
+        for idx, instantiation in enumerate(typename.instantiations):
             if instantiation.name in template_typenames:
                 template_idx = template_typenames.index(instantiation.name)
-                ctype.typename.instantiations[idx].name =\
+                typename.instantiations[idx].name =\
                     instantiations[template_idx]
+            else:
+                instantiate_template_args(instantiation)
 
+    instantiate_template_args(ctype.typename)
 
     str_arg_typename = str(ctype.typename)
 
